@@ -314,7 +314,9 @@ pub fn run(ctx: &Ctx) -> i32 {
         explore(ctx, "FLOW wide T=2 decimal depth<=2", Wide { alphabet: alpha::flow(2, &[0, 1, 3333], Rich::Base), bases: alpha::bases(false), max_add: 2, repeat: false }, C01, shared.clone());
         explore(ctx, "FLOW wide T=2 large depth<=2", Wide { alphabet: alpha::flow(2, &[0, 123456, 100 << 20], Rich::Base), bases: alpha::bases(false), max_add: 2, repeat: false }, C01, shared.clone());
         let opts = vec![k(&[1, 0]), k(&[3, 1])];
-        explore(ctx, "FLOW deep 10 slots x 3", Layered { slots: alpha::flow_slots(2, &opts, Rich::Base), bases: alpha::bases(false) }, C01, shared.clone());
+        let mut slots = alpha::flow_slots(2, &opts, Rich::Base);
+        slots.push(alpha::second_pv_slot(&opts));
+        explore(ctx, "FLOW deep 10 slots x 3", Layered { slots, bases: alpha::bases(false) }, C01, shared.clone());
     } else {
         explore(ctx, "FLOW wide T=2 depth<=4", Wide { alphabet: alpha::flow(2, &v, Rich::Base), bases: alpha::bases(false), max_add: 4, repeat: false }, C01, shared.clone());
         explore(ctx, "FLOW wide(rich) T=2 depth<=3", Wide { alphabet: alpha::flow(2, &v, Rich::Wide), bases: alpha::bases(false), max_add: 3, repeat: true }, C01, shared.clone());
